@@ -869,6 +869,209 @@ def reused_cost_containers(ctx, torch, g):
             ctx.disagree("pl", case, ("ok", enc_rat(got)), (rm[0], enc_rat(rm[1]) if rm[0] == "ok" else rm[1]), note="cost container reused across calls")
 
 
+# deterministic corpus (every tier, every seed) of the class "ONE cost list kept by the caller, passed to several pl / terminal_value calls
+# and UPDATED IN PLACE by the caller between the calls": (dtype, functions used in turn, number of rates at the start (0: a single rate for
+# every instrument, the number of instruments is free), the caller's update before each further call).  Updates:
+#   same (none) / set (cost[i] = r) / augmented (cost[i] += d) / int (cost[i] = a Python int) / swap (cost[i], cost[j] = cost[j], cost[i]) /
+#   reverse (cost.reverse()) / slice (cost[:] = as many new rates) / extend (append / insert / += : one more instrument) /
+#   shorten (pop / del: one instrument fewer) / resize (cost[:] = ... or clear() + extend(...): another number of instruments)
+MUTATE_CORPUS = [
+    ("float64", ("pl",), 2, ["set", "set", "same", "set"]),
+    ("float64", ("terminal_value",), 2, ["set", "swap", "augmented"]),
+    ("float64", ("pl", "terminal_value"), 3, ["swap", "reverse", "set"]),
+    ("float32", ("pl", "terminal_value"), 2, ["set", "swap", "slice"]),
+    ("float64", ("pl", "terminal_value"), 1, ["extend", "extend", "shorten", "set"]),
+    ("float64", ("terminal_value", "pl"), 3, ["shorten", "slice", "resize", "set"]),
+    ("float64", ("pl",), 0, ["set", "slice", "augmented"]),
+    ("float32", ("terminal_value", "pl"), 0, ["set", "set", "int"]),
+    ("float64", ("pl", "terminal_value"), 2, ["int", "set", "resize", "swap"]),
+    ("float32", ("pl",), 1, ["set", "extend", "swap", "shorten"]),
+    ("float64", ("terminal_value",), 1, ["set", "same", "slice"]),
+    ("float32", ("terminal_value",), 3, ["slice", "reverse", "augmented"]),
+]
+
+
+def updated_cost_containers(ctx, torch, g):
+    """The caller keeps ONE list of cost rates, hands the SAME object to several pl / terminal_value calls and UPDATES it in place between
+    the calls (a sweep over rates: `cost[0] = rate; pl(..., cost=cost)`; an element re-assigned or incremented, two elements swapped, the
+    list reversed, `cost[:] = ...`, the list extended / shortened together with the number of hedging instruments of the next problem).
+    Predicates, per call: the call succeeds; its value is the wealth identity at the rates the list holds AT THAT CALL (the harness's own
+    record of what the caller wrote; exact Fractions on the dyadic grids of gen_functional, under the same exactness guard); afterwards
+    the list still is what the caller wrote.  Every call is also sent to the Lean op "pl" with the rates of that call."""
+    from pfhedge.nn.functional import pl, terminal_value
+    n_random = 30 if ctx.tier == "quick" else 500
+    OPS_FULL = ["set", "set", "augmented", "int", "swap", "reverse", "slice", "extend", "shorten", "resize", "same"]
+    OPS_SINGLE = ["set", "set", "augmented", "int", "slice", "same"]
+    reqs, metas = [], []
+    for it in range(len(MUTATE_CORPUS) + n_random):
+        if it < len(MUTATE_CORPUS):
+            dtype, fns, n0, ops = MUTATE_CORPUS[it]
+        else:
+            dtype = g.weighted([("float64", 3), ("float32", 1)])
+            fns = tuple(g.choice(["pl", "terminal_value"]) for _ in range(g.randint(1, 3)))
+            n0 = g.choice([0, 1, 2, 2, 3, 4])
+            ops = [g.choice(OPS_FULL if n0 else OPS_SINGLE) for _ in range(g.randint(1, 4))]
+        sb, ub, cb, smax, ulim, cmax = (4, 4, 8, 15, 4, 16) if dtype == "float64" else (2, 2, 4, 7, 2, 4)
+        dt = getattr(torch, dtype)
+        dims = (1, 2, 3) if dtype == "float32" else (1, 2, 3, 4, 5)
+        hmax = 3 if dtype == "float32" else 5
+
+        def rate(avoid=()):
+            """a rate of the grid (ordinary costs, some rebates) other than those in `avoid`"""
+            while True:
+                r = float(F(g.randint(-cmax // 2, cmax), 1 << cb))
+                if r not in avoid:
+                    return r
+        rates = [rate((0.0,)) for _ in range(max(n0, 1))]       # the harness's own record of what the caller wrote
+        cont = list(rates)                                       # the caller's list: the SAME object in every call
+        history, changed_reported = [], False
+        ctx.stats[f"update:cost={'single' if n0 == 0 else 'full'}"] += 1
+        for k in range(len(ops) + 1):
+            if k > 0:
+                op = ops[k - 1]
+                n = len(rates)
+                if op in ("swap", "reverse") and (n < 2 or rates == rates[::-1] or len(set(rates)) < 2):
+                    op = "set"
+                if op == "shorten" and n < 2:
+                    op = "extend"
+                if op == "extend" and n >= hmax:
+                    op = "shorten"
+                ctx.stats[f"update:op={op}"] += 1
+                if op == "set":
+                    i = g.randint(0, n - 1)
+                    r = rate((rates[i],))
+                    rates[i] = r
+                    cont[i] = r
+                    history.append(f"cost[{i}] = {r!r}")
+                elif op == "augmented":
+                    i = g.randint(0, n - 1)
+                    r = rate((rates[i],))
+                    d = r - rates[i]                               # (dyadic: exact)
+                    rates[i] = r
+                    cont[i] += d
+                    history.append(f"cost[{i}] += {d!r}")
+                elif op == "int":
+                    i = g.randint(0, n - 1)
+                    r = g.choice([x for x in (0, 1, 2) if x != rates[i]])
+                    rates[i] = r
+                    cont[i] = r
+                    history.append(f"cost[{i}] = {r!r}  (a Python int)")
+                elif op == "swap":
+                    i = g.randint(0, n - 1)
+                    j = g.choice([j_ for j_ in range(n) if rates[j_] != rates[i]])
+                    rates[i], rates[j] = rates[j], rates[i]
+                    cont[i], cont[j] = cont[j], cont[i]
+                    history.append(f"cost[{i}], cost[{j}] = cost[{j}], cost[{i}]")
+                elif op == "reverse":
+                    rates = rates[::-1]
+                    cont.reverse()
+                    history.append("cost.reverse()")
+                elif op == "slice":
+                    new = [rate((r_,)) for r_ in rates]
+                    rates = list(new)
+                    cont[:] = new
+                    history.append(f"cost[:] = {new!r}")
+                elif op == "extend":
+                    r, how = rate(), g.choice(["append", "insert", "iadd"])
+                    if how == "append":
+                        rates = rates + [r]
+                        cont.append(r)
+                        history.append(f"cost.append({r!r})")
+                    elif how == "insert":
+                        rates = [r] + rates
+                        cont.insert(0, r)
+                        history.append(f"cost.insert(0, {r!r})")
+                    else:
+                        rates = rates + [r]
+                        cont += [r]
+                        history.append(f"cost += [{r!r}]")
+                elif op == "shorten":
+                    if g.chance(0.5):
+                        rates = rates[:-1]
+                        cont.pop()
+                        history.append("cost.pop()")
+                    else:
+                        rates = rates[1:]
+                        del cont[0]
+                        history.append("del cost[0]")
+                elif op == "resize":
+                    new = [rate() for _ in range(g.choice([m_ for m_ in range(1, hmax + 1) if m_ != n]))]
+                    rates = list(new)
+                    if g.chance(0.5):
+                        cont[:] = new
+                        history.append(f"cost[:] = {new!r}")
+                    else:
+                        cont.clear()
+                        cont.extend(new)
+                        history.append(f"cost.clear(); cost.extend({new!r})")
+                else:
+                    history.append("(no update)")
+                if container_state(cont) != container_state(list(rates)):
+                    raise InternalError("the harness's record of the caller's cost list is out of step with the list")
+            fn_name = fns[k % len(fns)]
+            N, T = g.choice(dims), g.choice(dims[1:] + (6,))
+            H = g.choice(dims[:4]) if n0 == 0 else len(rates)
+            neg_spot = g.chance(0.2)
+            spot = [[[g.dy(-smax, smax, sb) if neg_spot else g.dy(F(1, 4), smax, sb) for _ in range(T)] for _ in range(H)] for _ in range(N)]
+            unit = [[[g.dy(-ulim, ulim, ub) for _ in range(T)] for _ in range(H)] for _ in range(N)]
+            payoff = [g.dy(0, 8, sb) for _ in range(N)] if g.chance(0.7) else None
+            first = g.chance(0.6)
+            written = container_state(list(rates))
+            full = [F(r) for r in rates] * (H if n0 == 0 else 1)          # the rates the list holds at this call, one per instrument
+            req = {"op": "pl", "ss": [N, H, T], "su": [N, H, T], "spot": enc_rat(spot), "unit": enc_rat(unit), "cost": enc_rat([F(r) for r in rates]),
+                   "payoff": None if payoff is None else {"dim": 1, "data": enc_rat(payoff)}, "first": first, "final": False, "tv": fn_name == "terminal_value"}
+            case = {"fn": fn_name, "dtype": dtype,
+                    "cost_argument": f"the caller's list, now {rates!r}: the same object as in the {k} earlier call(s) of this sequence, updated in place by the caller between the calls",
+                    "caller_updates_between_calls": list(history), "ss": [N, H, T], "spot": req["spot"], "unit": req["unit"], "cost": req["cost"],
+                    "payoff": req["payoff"], "first": first}
+            ok = all(exact_sum_ok(terms_for_guard(s, u, full) + ([z] if z is not None else []), MANT[dtype])
+                     for s, u, z in zip(spot, unit, payoff or [None] * N))
+            ctx.case(case, ok and k > 0 and history[-1] != "(no update)" and any(r != 0 for r in rates), tag="updated_cost_container")
+            ctx.traces += 1
+            kw = dict(cost=cont, deduct_first_cost=first)
+            if payoff is not None:
+                kw["payoff"] = torch.tensor([float(x) for x in payoff], dtype=dt)
+            t3 = lambda x: torch.tensor([[[float(v_) for v_ in r] for r in p_] for p_ in x], dtype=dt)
+            st, v, mut = call_impl(pl if fn_name == "pl" else terminal_value, t3(spot), t3(unit), **kw)
+            if mut:
+                ctx.mutated("functional." + fn_name, mut, case)
+            now = container_state(cont)
+            if now != written and not changed_reported:
+                changed_reported = True
+                ctx.fail(f"functional.{fn_name} changes the caller's list of cost rates (the argument `cost`, which the caller updates between the calls): after the call it no "
+                         "longer holds the rates the caller wrote (type, length, elements)", case, key=f"functional.{fn_name}:cost-container-changed:updated-cost-container",
+                         detail={"written": repr(written), "after_the_call": repr(now)})
+            if st != "ok":
+                ctx.fail(f"functional.{fn_name} raises on a well-shaped input when the cost rates come in a list the caller has passed to earlier calls and updated in place since "
+                         "(as many rates as hedging instruments, or a single one)", case, key=f"functional.{fn_name}:error:updated-cost-container",
+                         detail={"error": v, "container_now": repr(now), "written": repr(written)})
+                continue
+            if tuple(v.shape) != (N,) or v.dtype != dt:
+                ctx.fail(f"functional.{fn_name} with a cost list updated in place since an earlier call: the result has not one value per path in the dtype of the prices", case,
+                         key=f"functional.{fn_name}:shape:updated-cost-container", detail={"shape": list(v.shape), "dtype": str(v.dtype)})
+                continue
+            if not ok:
+                ctx.stats["skipped_inexact"] += 1
+                continue
+            got = tensor_to_fracs(v)
+            exp = [wealth(s, u, full, z, first) for s, u, z in zip(spot, unit, payoff or [None] * N)]
+            if got != exp:
+                ctx.fail(f"functional.{fn_name} differs from the self-financing wealth identity at the rates the caller's cost list holds AT THIS CALL: the same list object was "
+                         "passed to earlier calls and has been updated in place by the caller since (element re-assigned / swapped / list extended, shortened or refilled)", case,
+                         key=f"functional.{fn_name}:value:updated-cost-container",
+                         detail={"impl": enc_rat(got), "wealth_at_the_current_rates": enc_rat(exp), "container_now": repr(now), "last_update": history[-1] if history else None})
+            reqs.append(req)
+            metas.append((case, got))
+    try:
+        outs = [model_result(m) for m in ctx.driver(reqs)]
+    except DriverBroken as e:
+        ctx.ties_broken.append({"kind": "driver", "detail": str(e)[:1500]})
+        outs = []
+    for (case, got), rm in zip(metas, outs):
+        if ("ok", got) != rm:
+            ctx.disagree("pl", case, ("ok", enc_rat(got)), (rm[0], enc_rat(rm[1]) if rm[0] == "ok" else rm[1]), note="cost list updated in place by the caller between calls")
+
+
 def reused_hedge_containers(ctx, torch, g):
     """The caller keeps ONE collection of hedging instruments (a list, an instance of a sub-class of list, a user-defined sequence, a
     tuple) and hands the SAME object to every entry point of the Hedger taking `hedge=` (compute_hedge, compute_portfolio, compute_pl,
@@ -960,6 +1163,196 @@ def reused_hedge_containers(ctx, torch, g):
                     ctx.fail(f"Hedger.{entry} differs from the wealth identity on the current prices of the instruments the caller put into the collection, the hedge computed "
                              f"for them, their cost rates and the payoff, when the same {seq} object has been passed to earlier calls", case,
                              key=f"hedger.{entry}:value:reused-hedge-{seq}", detail={"impl": v.tolist(), "prices": enc_rat(sp), "hedge": enc_rat(un)})
+
+
+# deterministic corpus (every tier, every seed) of the class "ONE collection of hedging instruments kept by the caller, handed to several
+# Hedger entry points and UPDATED IN PLACE by the caller between the calls": (kind of collection, number of instruments at the start, the
+# caller's update before each further call).  Updates: set (book[i] = another instrument) / swap / reverse / slice (book[:] = as many) /
+# extend (append / insert) / shorten (pop / del) / resize (book[:] = another number) / recost (instrument.cost = another rate: the rates the
+# hedger charges are the public attribute `cost` of the instruments the collection holds) / same
+UPDATE_HEDGE_CORPUS = [
+    ("list", 2, ["swap", "set", "recost", "extend"]),
+    ("list", 1, ["set", "extend", "swap", "shorten"]),
+    ("list", 3, ["reverse", "shorten", "slice", "recost"]),
+    ("list_subclass", 2, ["set", "swap", "resize"]),
+    ("userlist", 2, ["swap", "recost", "slice"]),
+]
+
+
+def updated_hedge_containers(ctx, torch, g):
+    """The caller keeps ONE mutable collection of hedging instruments (a list, an instance of a sub-class of list, a user-defined sequence),
+    hands the SAME object to the entry points of the Hedger taking `hedge=` and UPDATES it in place between the calls: an element replaced
+    by another instrument (other prices, other cost rate), two elements swapped, the collection reversed / refilled (`book[:] = ...`),
+    extended or shortened (the hedger of the call has as many outputs as the collection then holds), or the cost rate of an instrument it
+    holds re-assigned (`instrument.cost = rate`).  Predicates, per call: the call succeeds; compute_hedge is the hedge of a fresh list of
+    the instruments the collection holds AT THAT CALL; compute_pl / compute_portfolio / compute_pnl are the wealth identity on those
+    instruments' current prices, that hedge, the cost rates they carry at that call and the payoff (exact Fractions of the float64 data;
+    1e-13 of the sum of the absolute terms for the float64 summation); afterwards the collection holds what the caller put into it."""
+    from pfhedge.instruments import BrownianStock, EuropeanOption, LookbackOption
+    from pfhedge.nn import Hedger
+    ENTRY = ["compute_hedge", "compute_portfolio", "compute_pl", "compute_pnl", "compute_loss", "price", "fit"]
+    OPS = ["set", "swap", "reverse", "slice", "extend", "shorten", "resize", "recost", "recost", "same"]
+    RATES = [F(0), F(1, 256), F(2, 256), F(8, 256), F(-4, 256), F(16, 256), F(3, 256)]
+    n_random = 2 if ctx.tier == "quick" else 40
+    for it in range(len(UPDATE_HEDGE_CORPUS) + n_random):
+        seq, nh0, ops = UPDATE_HEDGE_CORPUS[it] if it < len(UPDATE_HEDGE_CORPUS) else \
+            (g.choice(["list", "list", "list_subclass", "userlist"]), g.choice([1, 2, 3]), [g.choice(OPS) for _ in range(g.randint(2, 4))])
+        steps = g.choice([2, 3, 4])
+        stock = BrownianStock(cost=float(g.choice(RATES)), dtype=torch.float64)
+        deriv = (EuropeanOption if g.chance(0.6) else LookbackOption)(stock, maturity=steps * stock.dt)
+        # the instruments the caller chooses from: the derivative's stock and four options on it, each listed through its own closed formula
+        # of the stock's current price at its own cost rate
+        pool, names = [stock], ["the derivative's stock"]
+        quotes = [(F(1, 2), F(1, 4)), (F(2), F(0)), (F(1), F(-1, 4)), (F(3, 2), F(1, 2))]
+        for a, b0 in quotes:
+            o = EuropeanOption(stock, strike=1.0, maturity=steps * stock.dt)
+            o.list(lambda d, a=float(a), b0=float(b0): d.ul().spot * a + b0, cost=float(g.choice(RATES)))
+            pool.append(o)
+            names.append(f"option on it listed at {rat_str(a)} S + {rat_str(b0)}")
+        cost_of = {id(x): F(float(x.cost)) for x in pool}          # the harness's own record of the rates the caller wrote
+        name_of = {id(x): nm for x, nm in zip(pool, names)}
+        hedgers, weights = {}, {}
+        for nh in (1, 2, 3):
+            mkind = g.choice(["linear", "prev"])
+            nin = 2 + (nh if mkind == "prev" else 0)
+            w = [[g.choice([F(-1), F(-1, 2), F(1, 2), F(1), F(1, 4)]) for _ in range(nin)] for _ in range(nh)]
+            b = [g.choice([F(0), F(1, 2), F(-1, 4)]) for _ in range(nh)]
+            lin = torch.nn.Linear(nin, nh, dtype=torch.float64)
+            with torch.no_grad():
+                lin.weight.copy_(torch.tensor([[float(x) for x in r] for r in w], dtype=torch.float64))
+                lin.bias.copy_(torch.tensor([float(x) for x in b], dtype=torch.float64))
+            hedgers[nh] = Hedger(lin, ["moneyness", "time_to_maturity"] + (["prev_hedge"] if mkind == "prev" else []))
+            weights[nh] = {"inputs": str(hedgers[nh].inputs), "w": enc_rat(w), "b": enc_rat(b)}
+        held = [stock] + g.r.sample(pool[1:], nh0 - 1)               # the harness's own record of what the collection holds
+        if g.chance(0.3):
+            g.r.shuffle(held)
+        book = as_sequence(seq, held)                                 # the caller's collection: the SAME object in every call
+        history, changed_reported = [], False
+        ctx.stats[f"update:hedge={seq}"] += 1
+        entries = [g.choice(ENTRY[:4]) for _ in range(len(ops) + 1)]
+        entries[g.randint(0, len(ops))] = g.choice(ENTRY[4:])
+        for k in range(len(ops) + 1):
+            if k > 0:
+                op, n = ops[k - 1], len(held)
+                if op in ("swap", "reverse") and n < 2:
+                    op = "set"
+                if op == "reverse" and n == 3 and g.chance(0.5):
+                    op = "swap"
+                if op == "shorten" and n < 2:
+                    op = "extend"
+                if op == "extend" and n >= 3:
+                    op = "shorten"
+                ctx.stats[f"update:hedge-op={op}"] += 1
+                free = [x for x in pool if all(x is not y for y in held)]
+                if op == "set":
+                    i, x = g.randint(0, n - 1), g.choice(free)
+                    held[i] = x
+                    book[i] = x
+                    history.append(f"book[{i}] = {name_of[id(x)]}")
+                elif op == "swap":
+                    i = g.randint(0, n - 1)
+                    j = (i + g.randint(1, n - 1)) % n
+                    held[i], held[j] = held[j], held[i]
+                    book[i], book[j] = book[j], book[i]
+                    history.append(f"book[{i}], book[{j}] = book[{j}], book[{i}]")
+                elif op == "reverse":
+                    held.reverse()
+                    book.reverse()
+                    history.append("book.reverse()")
+                elif op in ("slice", "resize"):
+                    m = n if op == "slice" else g.choice([m_ for m_ in (1, 2, 3) if m_ != n])
+                    new = g.r.sample(pool, m)
+                    while m == n and all(x is y for x, y in zip(new, held)):
+                        new = g.r.sample(pool, m)
+                    held = list(new)
+                    book[:] = new
+                    history.append("book[:] = [" + ", ".join(name_of[id(x)] for x in new) + "]")
+                elif op == "extend":
+                    x = g.choice(free)
+                    if g.chance(0.5):
+                        held.append(x)
+                        book.append(x)
+                        history.append(f"book.append({name_of[id(x)]})")
+                    else:
+                        held.insert(0, x)
+                        book.insert(0, x)
+                        history.append(f"book.insert(0, {name_of[id(x)]})")
+                elif op == "shorten":
+                    if g.chance(0.5):
+                        held.pop()
+                        book.pop()
+                        history.append("book.pop()")
+                    else:
+                        del held[0]
+                        del book[0]
+                        history.append("del book[0]")
+                elif op == "recost":
+                    i = g.randint(0, n - 1)
+                    r = g.choice([r_ for r_ in RATES if r_ != cost_of[id(held[i])]])
+                    cost_of[id(held[i])] = r
+                    book[i].cost = float(r)
+                    history.append(f"book[{i}].cost = {float(r)!r}")
+                else:
+                    history.append("(no update)")
+                if len(book) != len(held) or any(x is not y for x, y in zip(book, held)):
+                    raise InternalError("the harness's record of the caller's collection of instruments is out of step with the collection")
+            nh, entry = len(held), entries[k]
+            hedger, costs = hedgers[nh], [cost_of[id(x)] for x in held]
+            N, sd, kwd = g.choice([1, 2, 3, 5]), g.randint(0, 10 ** 6), g.chance(0.4)
+            case = {"entry": entry, "hedge_argument": f"the caller's {seq} of instruments: the same object as in the {k} earlier call(s) of this sequence, updated in place by the "
+                    "caller between the calls", "holds_now": [name_of[id(x)] for x in held], "cost_now": enc_rat(costs), "caller_updates_between_calls": list(history),
+                    "earlier_entries": entries[:k], "derivative": type(deriv).__name__, "steps": steps, "hedger": weights[nh], "n_paths": N, "torch_seed": sd,
+                    "hedge_by_keyword": kwd}
+            ctx.case(case, k > 0 and history[-1] != "(no update)", tag="updated_hedge_container")
+            ctx.traces += 1
+            torch.manual_seed(sd)
+            a, kw = ((deriv,), {"hedge": book}) if kwd else ((deriv, book), {})
+            if entry in ("compute_hedge", "compute_portfolio", "compute_pl"):
+                deriv.simulate(n_paths=N)
+                with torch.no_grad():
+                    st, v, _ = call_impl(getattr(hedger, entry), *a, **kw)
+            elif entry == "compute_pnl":
+                with torch.no_grad():
+                    st, v, _ = call_impl(hedger.compute_pnl, *a, n_paths=N, **kw)
+            elif entry == "fit":
+                st, v, _ = call_impl(hedger.fit, *a, n_epochs=1, n_paths=N, n_times=1, verbose=False, **kw)
+            else:
+                st, v, _ = call_impl(getattr(hedger, entry), *a, n_paths=N, n_times=2, enable_grad=False, **kw)
+            after = list(book)
+            if (len(after) != nh or any(x is not y for x, y in zip(after, held)) or [F(float(x.cost)) for x in held] != costs) and not changed_reported:
+                changed_reported = True
+                ctx.fail(f"Hedger.{entry} changes the caller's collection of hedging instruments (the argument `hedge`, which the caller updates between the calls) or the cost "
+                         "rates of the instruments in it: after the call it no longer holds what the caller wrote", case, key=f"hedger.{entry}:hedge-container-changed:updated-hedge-container",
+                         detail={"length_before": nh, "length_after": len(after), "cost_after": [float(x.cost) for x in held]})
+            if st != "ok":
+                ctx.fail(f"Hedger.{entry} raises when the hedging instruments come in a {seq} the caller has passed to earlier calls and updated in place since (the module has one "
+                         "output per instrument the collection holds now)", case, key=f"hedger.{entry}:error:updated-hedge-container", detail=v)
+                continue
+            if entry in ("compute_hedge", "compute_portfolio", "compute_pl", "compute_pnl"):
+                # the market left by the call; the hedge of a FRESH list of the instruments the collection holds at this call
+                with torch.no_grad():
+                    ut = hedger.compute_hedge(deriv, list(held))
+                    un = tensor_to_fracs(ut)
+                    sp = tensor_to_fracs(torch.stack([h.spot for h in held], dim=1))
+                    pf = tensor_to_fracs(deriv.payoff()) if entry in ("compute_pl", "compute_pnl") else None
+                if entry == "compute_hedge":
+                    if tuple(v.shape) != tuple(ut.shape) or not torch.equal(v, ut):
+                        ctx.fail(f"Hedger.compute_hedge with a {seq} of instruments the caller has updated in place since an earlier call is not the hedge of a fresh list of the "
+                                 "instruments the collection holds at this call", case, key="hedger.compute_hedge:value:updated-hedge-container",
+                                 detail={"impl": v.tolist(), "fresh_list": ut.tolist()})
+                    continue
+                got = tensor_to_fracs(v) if tuple(v.shape) == (N,) else None
+                for n in range(N if got is not None else 0):
+                    exp = wealth(sp[n], un[n], costs, pf[n] if pf is not None else None, True)
+                    scale = sum(abs(t_) for t_ in terms_for_guard(sp[n], un[n], costs)) + (abs(pf[n]) if pf is not None else 0) + 1
+                    if not isinstance(got[n], F) or abs(got[n] - exp) > F(1, 10 ** 13) * scale:
+                        got = None
+                        break
+                if got is None:
+                    ctx.fail(f"Hedger.{entry} differs from the wealth identity on the current prices of the instruments the caller's collection holds AT THIS CALL, the hedge computed "
+                             f"for them, the cost rates they carry at this call and the payoff: the same {seq} object was passed to earlier calls and has been updated in place by the "
+                             "caller since", case, key=f"hedger.{entry}:value:updated-hedge-container",
+                             detail={"impl": v.tolist(), "prices": enc_rat(sp), "hedge": enc_rat(un), "cost": enc_rat(costs), "last_update": history[-1] if history else None})
 
 
 def check(ctx):
@@ -1179,7 +1572,9 @@ def check(ctx):
     nondyadic_cost_rates(ctx, torch, g)
     hedge_sequence_entry_points(ctx, torch, g)
     reused_cost_containers(ctx, torch, g)
+    updated_cost_containers(ctx, torch, g)
     reused_hedge_containers(ctx, torch, g)
+    updated_hedge_containers(ctx, torch, g)
     return ctx.finish(
         rule="functional: random (N,H,T) shapes with dyadic spot/unit/payoff/cost grids sized so float64/float32 commit no rounding; "
              "non-trivial = well-shaped, some cost rate != 0, non-constant prices, positions of both signs, T>=2. "
@@ -1194,6 +1589,10 @@ def check(ctx):
              "caller-owned containers reused across calls: ONE cost list / tuple (a single rate for all instruments with changing H, or one rate per instrument; floats or Python ints) handed to several pl / terminal_value calls "
              "of other shapes, and ONE hedge list / sub-class of list / user-defined sequence / tuple handed to every hedge= entry point of two hedgers for two derivatives: each call succeeds and is the identity at what the "
              "caller wrote, and the container is unchanged afterwards (deterministic corpus of 10 + 6 sequences, plus random ones; the pl calls also go to the Lean op pl); "
+             "caller-owned containers UPDATED IN PLACE by the caller between calls: ONE cost list (element re-assigned / incremented / set to a Python int, elements swapped, reversed, cost[:] = ..., "
+             "extended / shortened / refilled together with H) handed to several pl / terminal_value calls, and ONE mutable hedge collection (element replaced, swapped, reversed, refilled, extended / "
+             "shortened with a hedger of as many outputs, instrument.cost re-assigned) handed to the hedge= entry points: each call succeeds and is the identity at what the container holds AT THAT CALL "
+             "(deterministic corpus of 12 + 5 sequences, plus random ones; the pl calls also go to the Lean op pl with the rates of the call); "
              "every hedger scenario and round is also run through the composed model `hedgerPL`/`hedgerPortfolio` (op hedger_pl) from the generated data alone; "
              "non-trivial = hedge moves, some cost rate != 0, exactly representable. distinct = sha1 of the canonical case.")
 
